@@ -445,7 +445,7 @@ func (r *Run) c12WS(v, Q, M int, concurrent bool) {
 
 func runC12(r *Run) {
 	installHooks()
-	r.st.Rule = "tcpConn/wsConn obtained from the registered dialers. TCP: a single writer against a stalled peer with queue sizes 1..16 and 256 KiB-1 MiB frames, and with 24-byte frames of which every third is signed (both versions) (every Write must return promptly; verdict sequence and the bytes the peer finally reads are compared with Model/WritePath.v under the lazy writer schedule consistent with the verdicts); 2-16 concurrent writers with frame sizes 1 B..200 KB, gzip thresholds, a slow reader (direct oracle: handshake first, whole frames only, each accepted write exactly once, per-writer order, no blocking). WebSocket: version in the URL, each accepted frame exactly one binary message (sequential vs model, concurrent by direct oracle). distinct = distinct request lines"
+	r.st.Rule = "tcpConn/wsConn obtained from the registered dialers. TCP: a single writer against a stalled peer with queue sizes 1..16 and 256 KiB-1 MiB frames, and with 24-byte frames of which every third is signed (both versions) (every Write must return promptly; verdict sequence and the bytes the peer finally reads are compared with Model/WritePath.v under the lazy writer schedule consistent with the verdicts); 2-16 concurrent writers with frame sizes 1 B..200 KB, gzip thresholds, a slow reader (direct oracle: handshake first, whole frames only, each accepted write exactly once, per-writer order, no blocking). WebSocket: version in the URL, each accepted frame exactly one binary message (sequential vs model, concurrent by direct oracle). Also: dials with non-zero handshake reserve bits; TCP writer stuck in a 12 MiB frame (peer receive buffer pinned to 64 KB) with one queue slot free and 12 callers released together at the conn.write.before-enqueue hook (spin barrier): every Write returns; WebSocket: three 8 MiB (after compression) requests towards a peer that stops reading for 0.6 s and pings four times meanwhile, keepalive 200 ms: exactly one whole frame per binary message, all three arrive, no crash. distinct = distinct request lines"
 	qs := []int{1, 4}
 	if r.thorough() {
 		qs = []int{1, 2, 3, 4, 8, 16}
